@@ -795,6 +795,13 @@ func (ec *EvalCtx) evalCall(x *ECall) Val {
 		e := ec.eval(x.Args[0])
 		t := ec.eval(x.Args[1])
 		return Val{T: fmt.Sprintf("(chainHas %s %s)", e.T, t.T), S: SBool}
+	case "allocated": // allocated before the current program point (distinct from everything allocated later)
+		v := ec.coerce(ec.eval(x.Args[0]), SInt)
+		w := ex.lastRef
+		if w == "" {
+			w = "allocbase"
+		}
+		return Val{T: fmt.Sprintf("(<= (root %s) %s)", v.T, w), S: SBool}
 	case "fresh": // allocated during this call
 		v := ec.coerce(ec.eval(x.Args[0]), SInt)
 		return Val{T: fmt.Sprintf("(> (root %s) allocbase)", v.T), S: SBool}
